@@ -381,7 +381,9 @@ class Tensor:
                 visited_nodes.add(node)
                 stack.append((node, True))
                 for child in reversed(node._children):
-                    if child.requires_grad and child._grad is None:
+                    # leaves accumulate across calls; a non-leaf buffer only holds the gradient
+                    # propagating in the current sweep, so it always starts from zero
+                    if child.requires_grad and (child._grad is None or not child.is_leaf):
                         child.zero_()
                     stack.append((child, False))
 
